@@ -312,3 +312,194 @@ pub async fn acc_cancel(seed: u64) {
     tr(json!({"ev": "all_dropped"}));
     conn.teardown().await;
 }
+
+/// Directed scenario (C03/C11): a receive call is cancelled while the credit return it started is waiting for
+/// space in the dispatcher's event queue; afterwards other operations of the same endpoint (closing the
+/// receiver, sending on another direction) must still complete without that receiver being polled again.
+pub async fn ret_cancel(seed: u64) {
+    use remoc::chmux::Received;
+    let mut rng = Rng::new(seed ^ 0x4E7C);
+    let mut cfg_a = EpCfg::small(&mut rng);
+    let mut cfg_b = EpCfg::small(&mut rng);
+    cfg_b.shared_q = 1;
+    cfg_b.tx_q = 1;
+    cfg_b.rbuf = rng.range(4, 7) as u32; // threshold 1: every consumed frame returns credit
+    cfg_a.rbuf = 16;
+    tr(json!({"ev": "reset", "seed": seed, "wl": "ret_cancel", "cfg": [cfg_a.json(), cfg_b.json()]}));
+    install_spawn_policy(seed, 1, 4);
+    let mut conn = Conn::establish(&cfg_a, &cfg_b).await;
+    let client = conn.client[0].clone().unwrap();
+    let mut listener = conn.listener[1].take().unwrap();
+    let (pab, pba) = (conn.ab.clone(), conn.ba.clone());
+    let pump = tokio::spawn(async move {
+        loop {
+            pab.deliver();
+            pba.deliver();
+            tokio::task::yield_now().await;
+        }
+    });
+    let (c, s) = tokio::join!(Labeled::new(1, client.connect()), Labeled::new(2, listener.accept()));
+    pump.abort();
+    let (a_tx, a_rx) = c.expect("connect");
+    let (b_tx, b_rx) = s.expect("accept").expect("some");
+    conn.flush().await;
+    tr(json!({"ev": "open", "ep": 1, "local": p32(a_tx.local_port()), "remote": p32(a_tx.remote_port())}));
+    tr(json!({"ev": "open", "ep": 2, "local": p32(b_tx.local_port()), "remote": p32(b_tx.remote_port())}));
+    let (a_port, b_port) = (a_tx.local_port(), b_tx.local_port());
+    let a_tx = std::sync::Arc::new(tokio::sync::Mutex::new(a_tx));
+    let b_rx = std::sync::Arc::new(tokio::sync::Mutex::new(b_rx));
+    // A sends two small messages to B
+    let mut next_op = 1u64;
+    for _ in 0..2 {
+        let id = next_op;
+        next_op += 1;
+        let data = vec![(id * 7) as u8; 1];
+        tr(json!({"ev": "api_start", "op": id, "ep": 1, "kind": "send", "port": p32(a_port), "data": bytes_json(&data)}));
+        let txc = a_tx.clone();
+        let mut op = Op::new(id, 1, async move {
+            let mut g = txc.lock_owned().await;
+            g.send(Bytes::from(data)).await
+        });
+        let mut res = None;
+        for _ in 0..50 {
+            if let Polled::Ready(r) = op.poll() {
+                res = Some(r.is_ok());
+                break;
+            }
+            conn.flush().await;
+        }
+        let polls = op.polls;
+        drop(op);
+        match res {
+            Some(true) => tr(json!({"ev": "api_done", "op": id, "res": "ok"})),
+            Some(false) => tr(json!({"ev": "api_done", "op": id, "res": "err", "err": "chmux"})),
+            None => tr(json!({"ev": "api_cancel", "op": id, "polls": polls})),
+        }
+    }
+    conn.flush().await;
+    // stall B's transport and fill its dispatcher queues with B's own traffic
+    conn.ba.set(|st| st.blocked = true);
+    tr(json!({"ev": "backpressure", "dir": 2, "on": true}));
+    let b_tx = std::sync::Arc::new(tokio::sync::Mutex::new(b_tx));
+    let mut fillers: Vec<Op<bool>> = Vec::new();
+    for _ in 0..3 {
+        let id = next_op;
+        next_op += 1;
+        let data = vec![(id * 7) as u8; 1];
+        tr(json!({"ev": "api_start", "op": id, "ep": 2, "kind": "send", "port": p32(b_port), "data": bytes_json(&data)}));
+        let tx = b_tx.clone();
+        let mut op = Op::new(id, 2, async move {
+            let mut g = tx.lock_owned().await;
+            g.send(Bytes::from(data)).await.is_ok()
+        });
+        match op.poll() {
+            Polled::Ready(ok) => tr(json!({"ev": "api_done", "op": id, "res": if ok { "ok" } else { "err" }, "err": "chmux"})),
+            _ => {
+                fillers.push(op);
+                break;
+            }
+        }
+        settle().await;
+    }
+    // B consumes the first message: its credit return finds the queue full and is parked
+    let id = next_op;
+    next_op += 1;
+    tr(json!({"ev": "api_start", "op": id, "ep": 2, "kind": "recv_any", "port": p32(b_port)}));
+    let got = {
+        let rxc = b_rx.clone();
+        let mut op = Op::new(id, 2, async move {
+            let mut g = rxc.lock_owned().await;
+            g.recv_any().await
+        });
+        let mut got = None;
+        for _ in 0..10 {
+            if let Polled::Ready(r) = op.poll() {
+                got = Some(r);
+                break;
+            }
+            settle().await;
+        }
+        got
+    };
+    match got {
+        Some(Ok(Some(Received::Data(d)))) => tr(json!({"ev": "api_done", "op": id, "res": "data", "data": bytes_json(&Vec::<u8>::from(d))})),
+        _ => tr(json!({"ev": "api_cancel", "op": id, "polls": 10})),
+    }
+    // the next receive call starts flushing the parked return and is cancelled after a few polls
+    let id = next_op;
+    next_op += 1;
+    tr(json!({"ev": "api_start", "op": id, "ep": 2, "kind": "recv_any", "port": p32(b_port)}));
+    {
+        let rxc = b_rx.clone();
+        let mut op = Op::new(id, 2, async move {
+            let mut g = rxc.lock_owned().await;
+            g.recv_any().await
+        });
+        let polls = rng.range(1, 3);
+        let mut done = None;
+        for _ in 0..polls {
+            if let Polled::Ready(r) = op.poll() {
+                done = Some(r);
+                break;
+            }
+            settle().await;
+        }
+        match done {
+            Some(Ok(Some(Received::Data(d)))) => tr(json!({"ev": "api_done", "op": id, "res": "data", "data": bytes_json(&Vec::<u8>::from(d))})),
+            Some(_) => tr(json!({"ev": "api_done", "op": id, "res": "err", "err": "other"})),
+            None => tr(json!({"ev": "api_cancel", "op": id, "polls": polls})),
+        }
+    }
+    // now B closes its receiver (needs the event queue) while the transport resumes
+    let id = next_op;
+    tr(json!({"ev": "api_start", "op": id, "ep": 2, "kind": "close", "port": p32(b_port)}));
+    let rxc = b_rx.clone();
+    let mut close_op = Some(Op::new(id, 2, async move {
+        let mut g = rxc.lock_owned().await;
+        g.close().await;
+    }));
+    conn.ba.set(|st| st.blocked = false);
+    tr(json!({"ev": "backpressure", "dir": 2, "on": false}));
+    for _ in 0..300 {
+        if let Some(op) = close_op.as_mut() {
+            if op.runnable() {
+                if let Polled::Ready(()) = op.poll() {
+                    tr(json!({"ev": "api_done", "op": op.id, "res": "ok"}));
+                    close_op = None;
+                }
+            }
+        }
+        fillers.retain_mut(|o| {
+            if o.runnable() {
+                if let Polled::Ready(ok) = o.poll() {
+                    tr(json!({"ev": "api_done", "op": o.id, "res": if ok { "ok" } else { "err" }, "err": "chmux"}));
+                    return false;
+                }
+            }
+            true
+        });
+        conn.flush().await;
+    }
+    let mut pending: Vec<u64> = fillers.iter().map(|o| o.id).collect();
+    pending.extend(close_op.iter().map(|o| o.id));
+    tr(json!({"ev": "quiescent", "pending": pending, "settled": false}));
+    for o in fillers {
+        tr(json!({"ev": "api_cancel", "op": o.id, "polls": o.polls}));
+    }
+    if let Some(o) = close_op {
+        tr(json!({"ev": "api_cancel", "op": o.id, "polls": o.polls}));
+        drop(o);
+    }
+    tr(json!({"ev": "drop", "ep": 1, "what": "sender", "port": p32(a_port)}));
+    drop(a_tx);
+    tr(json!({"ev": "drop", "ep": 1, "what": "receiver", "port": p32(a_port)}));
+    drop(a_rx);
+    tr(json!({"ev": "drop", "ep": 2, "what": "sender", "port": p32(b_port)}));
+    drop(b_tx);
+    tr(json!({"ev": "drop", "ep": 2, "what": "receiver", "port": p32(b_port)}));
+    drop(b_rx);
+    drop(client);
+    drop(listener);
+    tr(json!({"ev": "all_dropped"}));
+    conn.teardown().await;
+}
